@@ -108,7 +108,7 @@ def run(ck, prog, tier, load):
             if is_noise(b, bb):
                 continue
             sites.append((b, bb, t))
-    ck.anchor("C12-a", len(sites), 7, "append-to-accumulator sites in the extractor code")
+    ck.anchor("C12-a", len(sites), 4, "append-to-accumulator sites in the extractor code")
 
     tcl = prog.one(r"^actix_multipart::form::Limits::try_consume_limits$")
     n_ok = 0
@@ -222,7 +222,7 @@ def run(ck, prog, tier, load):
 
     # ---- budget call body ---------------------------------------------------------------
     cs = [bb for bb, t in tcl.calls(r"checked_sub$")]
-    ck.anchor("C12-a", len(cs), 3, "checked_sub in Limits::try_consume_limits")
+    ck.anchor("C12-a", len(cs), 2, "checked_sub in Limits::try_consume_limits")
     LF = r"\.actix_multipart::form::Limits\."
     for (bd, bb, s, e) in writes_of_field(prog, LF + r"(total_limit_remaining|memory_limit_remaining|field_limit_remaining)$", ["actix_multipart"]):
         if bd is not tcl:
@@ -269,8 +269,13 @@ def run(ck, prog, tier, load):
     for adt, fld in (("actix_web::types::payload::HttpMessageBody", "stream"), ("actix_web::types::json::JsonBody", "payload"), ("actix_web::types::form::UrlEncoded", "stream")):
         a = prog.adts.get(adt)
         tys = [f["ty"] for v in (a or {}).get("variants", []) for f in v["fields"] if f["n"] == fld]
-        ok = bool(tys) and all("Decompress" in ty or "Decoder" in ty for ty in tys)
-        ck.ob("C12-b.decoded-stream", adt.split("::")[-1], ok, None, None, "%s.%s : %s (reads the content-decoded stream, so the limit counts decoded bytes)" % (adt.split("::")[-1], fld, tys), nontrivial=False)
+        compress = "__compress" in (prog.manifests.get("actix_web", {}).get("features") or [])
+        if compress:
+            ok = bool(tys) and all("Decompress" in ty or "Decoder" in ty for ty in tys)
+            ck.ob("C12-b.decoded-stream", adt.split("::")[-1], ok, None, None, "%s.%s : %s (reads the content-decoded stream, so the limit counts decoded bytes)" % (adt.split("::")[-1], fld, tys), nontrivial=False)
+        else:
+            # built without any compress-* feature there is no content decoding at all: the extractor reads the payload as sent
+            ck.ob("C12-b.decoded-stream", adt.split("::")[-1], bool(tys), None, None, "%s.%s : %s (no compress-* feature in this configuration: no content decoding exists, the limit counts the bytes as sent)" % (adt.split("::")[-1], fld, tys), nontrivial=False)
     feats = prog.manifests.get("actix_web", {}).get("features", [])
     ck.note("actix_web features in this extraction: %s" % feats)
 
